@@ -5,6 +5,7 @@ func init() {
 		ID:    "C08",
 		Title: "Lexing and parsing terminate on every input and end in a program or an error",
 		Rules: []string{
+			"R-SHARED-RW: no package-level variable is both written and read on the render paths (state kept between calls: a shared environment for data-less renders, a cache of converted data or parsed programs)",
 			"R-RECDEPTH: every cycle of the call graph (VTA, function tables included) among the lexing and parsing functions runs through a depth guard; a cycle without one is a recursion whose depth the input decides (stack overflow ends the process)",
 			"R-LOADREC: the loader functions of the root package do not call each other in a cycle (loading is bounded by the files and the uses in them)",
 			"R-ILLEGAL: the ILLEGAL token for an unknown character is built without consuming input (the parser's only ILLEGAL check is at statement starts; names/keys are taken from the current token unchecked)",
@@ -19,6 +20,9 @@ func init() {
 		NotDecided:  "TODO",
 		Assumptions: trustedBase,
 		Run: func(m *Model, s *Sink) {
+			m.RunCodeEnd(s, "R-DELIM")                                       // a token that may end embedded code is not skipped silently where a statement is expected
+			m.RunSlotListEnd(s, "R-DELIM")                                   // a component use with slots is closed by its own @end
+			m.RunSharedWrites(s, "R-SHARED-RW", m.Roots().Render, "history") // what one render leaves behind must not reach the next (a shared environment for data-less calls, a cache of bound data, a memo of parsed strings)
 			m.RunIllegalTop(s, "R-ILLEGAL")
 			m.RunLoadRecursion(s, "R-LOADREC")
 			m.RunProgress(s, "R-PROGRESS")
